@@ -335,4 +335,17 @@ CHECKS = {
         assumptions=["sequential writers (one transaction group per request); concurrent delivery is not asserted here"],
         technique="property-based testing against a reference model of the documented matching rule",
     ),
+    "C24": dict(
+        test="TestC24", level="exploration", shards=16,
+        tiers=dict(quick=dict(checks=40, timeout=600), thorough=dict(checks=2000, timeout=3000)),
+        rule="instance with the real aggtrigger.NewTrigger on */1Min/OHLCV and 1-3 destinations from {5Min,15Min,1H,1D}; "
+             "rapid histories of 1-7 requests of 1-8 one-minute bars over two days (clustered near window and day "
+             "boundaries): appends, out-of-order requests, corrections of existing bars; the harness waits for each Fire "
+             "to return before the next write; oracle: every destination bucket == per-window aggregation of the base "
+             "bucket's current content (first open, max high, min low, last close, sum volume), one bar per window with "
+             "base bars; non-trivial = history with a correction or an out-of-order bar",
+        assumptions=["sequential histories; rows inside one request are in time order (the trigger takes the first and "
+                     "last record of a request as its time span)", "time zone UTC"],
+        technique="model-based property-based testing (destination buckets vs re-aggregation of the base bucket)",
+    ),
 }
